@@ -34,6 +34,12 @@ DOCBLOCK_TAIL = chr(10) + "#]]"
 
 
 NCP = @@NCP@@              # NA * ALEN code points for the argument texts
+REGION = @@REGION@@        # None | ("D3", "out") | ("D3", "in"): known-finding region subtracted from / isolated in this shard
+
+
+def _region(documented, flags) -> bool:
+    """D3: a cpp_class() carrying a doccomment while include_undocumented_cpp_class is false"""
+    return KIND == "cpp_class" and SYMFLAGS and documented and not flags[2]
 
 
 def _argsok(cps) -> bool:
@@ -134,6 +140,7 @@ def check(defs: List[bool], kw: List[bool], classes: List[bool], pending: int, d
     pre: hc.cps_ok(fcps, bad=(10, 13)) if FREE else fcps == (0,)
     pre: (_identifier(ncps) and all(hc.S(ncps).lower() != s for s in SPECIAL)) if KIND == "@other" else ncps == (0,)
     pre: not ef or KIND in ("ct_add_test", "ct_add_section")
+    pre: REGION is None or (_region(documented, flags) == (REGION[1] == "in"))
     post: _
     """
     a = _args(cps)
